@@ -2,14 +2,20 @@ package main
 
 import (
 	"bytes"
+	"errors"
 	"fmt"
+	"regexp"
+	"runtime"
 	"strconv"
 	"strings"
 	"sync"
 	"time"
 
 	"github.com/scrapli/scrapligo/driver/netconf"
+	"github.com/scrapli/scrapligo/driver/opoptions"
 	"github.com/scrapli/scrapligo/driver/options"
+	"github.com/scrapli/scrapligo/response"
+	"github.com/scrapli/scrapligo/util"
 
 	"verifgo/sim"
 	"verifgo/vlib"
@@ -19,84 +25,335 @@ import (
 // netconf.Driver over the server simulator; every reply is sent in a generated chunking and read
 // segmentation (one server message per read burst, as the property's sibling C08 states).
 // This clause is tied by observation only (impl vs spec); the framing theorems are about Record.
+//
+// Dimensions of a session (all drawn from the case seed): version; read segmentation (everything
+// available / fixed 1,2,3,16,64,1000,4096 / a random size per read); echo (none, echo and reply in
+// separate reads, echo sharing reads with the reply, pty-style coalesced); 1.0 server that ends a
+// message with "]]>]]>" + LF; driver options (forced self-closing tags, no XML header in requests);
+// the operation that carries the request (all twelve RPC methods of the driver, with and without a
+// per-operation timeout); payload size (to ~300 KB, chunk sizes on both sides of a header-length
+// change); unsolicited notifications between replies; a call that fails in its options before
+// anything is sent; and how the last reply ends: complete, completed only after the driver-level
+// timeout but within the per-operation one, cut short and then silence / end of stream / a read
+// error, or complete but with a malformed chunk header.
+
+const (
+	c02opGetConfig = iota
+	c02opGet
+	c02opRPC
+	c02opLock
+	c02opUnlock
+	c02opCommit
+	c02opDiscard
+	c02opValidate
+	c02opEditConfig
+	c02opCopyConfig
+	c02opDeleteConfig
+	c02opEstablish
+	c02opCount
+)
+
+var c02opNames = []string{"GetConfig", "Get", "RPC", "Lock", "Unlock", "Commit", "Discard", "Validate", "EditConfig", "CopyConfig", "DeleteConfig", "EstablishPeriodicSubscription"}
+
+// c02opTakesOptions: the methods that accept operation options (a per-operation timeout)
+var c02opTakesOptions = map[int]bool{c02opGetConfig: true, c02opGet: true, c02opRPC: true, c02opCommit: true}
+
+func c02doOp(d *netconf.Driver, op int, oo ...util.Option) (*response.NetconfResponse, error) {
+	switch op {
+	case c02opGet:
+		return d.Get("<interfaces/>", oo...)
+	case c02opRPC:
+		return d.RPC(append([]util.Option{opoptions.WithFilter("<get-schema><identifier>x</identifier></get-schema>")}, oo...)...)
+	case c02opLock:
+		return d.Lock("candidate")
+	case c02opUnlock:
+		return d.Unlock("candidate")
+	case c02opCommit:
+		return d.Commit(oo...)
+	case c02opDiscard:
+		return d.Discard()
+	case c02opValidate:
+		return d.Validate("candidate")
+	case c02opEditConfig:
+		return d.EditConfig("candidate", "<config><a></a></config>")
+	case c02opCopyConfig:
+		return d.CopyConfig("running", "startup")
+	case c02opDeleteConfig:
+		return d.DeleteConfig("startup")
+	case c02opEstablish:
+		return d.EstablishPeriodicSubscription("/x", 1000)
+	}
+	return d.GetConfig("running", oo...)
+}
+
+type c02dreq struct {
+	op      int
+	payload []byte
+	chunks  []int
+	notif   []byte // unsolicited notification sent in its own read burst before the reply (nil: none)
+	notifID int
+	subID   int  // EstablishPeriodicSubscription: the subscription id the reply announces
+	subOK   bool // … and the reply carries the result and id elements the method looks for
+}
 
 type c02dcase struct {
-	seed     uint64
-	v11      bool
-	segK     int
-	nreq     int
-	payload  [][]byte
-	chunks   [][]int
-	hasCR    bool
-	hashLine bool
+	seed       uint64
+	v11        bool
+	segK       int   // 0: everything available, > 0: at most segK bytes per read
+	segList    []int // non-nil: these read sizes in turn, then everything available
+	nreq       int
+	reqs       []c02dreq
+	echo       int // sim.C08Echo*
+	trailingLF bool
+	forceSC    bool
+	exclHdr    bool
+	badOpt     bool   // a call whose option fails precedes the first request
+	tail       string // how the last reply ends: "" | late | trunc-silence | trunc-eof | trunc-err | malformed:<class>
+	cut        int    // trunc / late: bytes of the last frame sent at once
+	size       string // small | medium | big
+	timeout    time.Duration
+}
+
+const c02xmlDecl = `<?xml version="1.0" encoding="UTF-8"?>`
+
+var c02subNS = `urn:ietf:params:xml:ns:yang:ietf-event-notifications`
+
+func c02head(id int) string {
+	return `<rpc-reply xmlns="urn:ietf:params:xml:ns:netconf:base:1.0" message-id="` + strconv.Itoa(id) + `">`
+}
+
+// c02dPayload draws one reply payload; returns it and the length of its leading part that must
+// stay in one chunk (the declaration and the reply header with the message-id attribute: an id cut
+// by a chunk boundary is C08's known finding F13).
+func c02dPayload(r *vlib.Rng, id int, v11 bool, size string, clean bool) ([]byte, int) {
+	var b bytes.Buffer
+	if r.Chance(1, 4) {
+		b.WriteString(c02xmlDecl)
+	} else if r.Chance(1, 20) {
+		b.WriteString(`<?xml version="1.0" encoding="utf-8"?>`) // not the declaration the code knows: it stays
+	}
+	head := c02head(id)
+	b.WriteString(head)
+	headLen := b.Len()
+	if clean {
+		for k := r.Intn(4); k >= 0; k-- {
+			b.WriteString(r.Pick([]string{"<ok/>", "<v>héllo ✓</v>", "<data>\n#7\n</data>", "<x>" + strconv.Itoa(r.Intn(1000)) + "</x>", "a # b\n"}))
+		}
+		b.WriteString("</rpc-reply>")
+		return b.Bytes(), headLen
+	}
+	for k := r.Intn(6); k > 0; k-- {
+		switch r.Intn(14) {
+		case 0:
+			b.WriteString("<ok/>")
+		case 1:
+			b.WriteString("<data>\n#" + strconv.Itoa(r.Intn(200)) + "\n</data>")
+		case 2:
+			b.WriteString("<v>héllo ✓</v>")
+		case 3:
+			if r.Chance(1, 6) {
+				b.WriteString("line1\n##\nline3")
+			} else {
+				b.WriteString("a ## b")
+			}
+		case 4:
+			b.WriteString(r.Pick(c02Markers))
+		case 5:
+			// (no ESC / ANSI sequences: U+001B is not a legal XML 1.0 character, so such a payload is
+			// outside the property's quantifier; the channel read loop would strip the sequence)
+			if r.Chance(1, 6) {
+				b.WriteString("x\r\ny\r\n")
+			} else {
+				b.WriteString("x\ny\n")
+			}
+		case 6:
+			b.WriteString(string(r.Bytes(r.Range(1, 60), []byte("abc#0123456789\n<>/ "))))
+		case 7:
+			b.WriteString(r.Pick(c02ErrVariants))
+		case 8:
+			if v11 {
+				b.WriteString(r.Pick([]string{"]]>]]>", "a]]>]]>\n", "<![CDATA[x]]>]]>"}))
+			} else {
+				b.WriteString("<![CDATA[ ]]> ]]>")
+			}
+		case 9:
+			b.WriteString(r.Pick([]string{c02xmlDecl, "<subscription-id>" + strconv.Itoa(50+r.Intn(5)) + "</subscription-id>", `message-id="7"`, "\n#1\n", "#\n"}))
+		default:
+			b.WriteString("<x>" + strconv.Itoa(r.Intn(1000)) + "</x>")
+		}
+	}
+	// bulk: lines of configuration text (no line begins with '#': known finding F2's trigger)
+	target := 0
+	switch size {
+	case "medium":
+		target = r.Range(2000, 20000)
+	case "big":
+		target = []int{66000, 99990, 100010, 131100, 300000}[r.Intn(5)]
+	}
+	for b.Len() < target {
+		b.WriteString("<interface><name>ge-0/0/" + strconv.Itoa(r.Intn(9999)) + "</name><mtu>" + strconv.Itoa(r.Intn(9999)) + "</mtu><d>é#" + strconv.Itoa(r.Intn(99)) + "</d></interface>\n")
+	}
+	b.WriteString("</rpc-reply>")
+	p := b.Bytes()
+	if bytes.Contains(p, []byte("</rpc>")) || (!v11 && bytes.Contains(p, []byte("]]>]]>"))) {
+		return c02dPayload(r, id, v11, size, true)
+	}
+	return p, headLen
+}
+
+// c02dChunks: the first chunk carries at least the reply header; the rest is cut arbitrarily, for
+// large payloads with sizes on both sides of a change of the header's digit count
+func c02dChunks(r *vlib.Rng, n, headLen int, size string) []int {
+	if size == "big" || (size == "medium" && r.Chance(1, 2)) {
+		var out []int
+		left := n
+		for left > 0 {
+			c := []int{999, 1000, 9999, 10000, 65535, 65536, 99999, 100000}[r.Intn(8)]
+			if len(out) == 0 && c < headLen {
+				c = headLen
+			}
+			if c > left || r.Chance(1, 6) {
+				c = left
+			}
+			out = append(out, c)
+			left -= c
+		}
+		return out
+	}
+	sizes := []int{headLen + r.Intn(n-headLen+1)}
+	class := r.Intn(4)
+	if n-sizes[0] > 3000 && (class == 1 || class == 3) {
+		class = 2 // thousands of tiny chunks: the frame would be several times the payload
+	}
+	return append(sizes, r.Cuts(n-sizes[0], class)...)
 }
 
 func genC02d(seed uint64) c02dcase {
 	r := vlib.NewRng(seed)
-	cs := c02dcase{seed: seed, v11: r.Chance(2, 3), nreq: r.Range(1, 4)}
-	cs.segK = []int{0, 0, 1, 3, 16, 64}[r.Intn(6)]
-	for i := 0; i < cs.nreq; i++ {
-		id := 101 + i
-		var b bytes.Buffer
-		if r.Chance(1, 4) {
-			b.WriteString(`<?xml version="1.0" encoding="UTF-8"?>`)
-		}
-		head := `<rpc-reply xmlns="urn:ietf:params:xml:ns:netconf:base:1.0" message-id="` + strconv.Itoa(id) + `">`
-		b.WriteString(head)
-		headLen := b.Len()
-		for k := r.Intn(6); k > 0; k-- {
-			switch r.Intn(10) {
-			case 0:
-				b.WriteString("<ok/>")
-			case 1:
-				b.WriteString("<data>\n#" + strconv.Itoa(r.Intn(200)) + "\n</data>")
-			case 2:
-				b.WriteString("<v>héllo ✓</v>")
-			case 3:
-				if r.Chance(1, 6) {
-					b.WriteString("line1\n##\nline3")
-					cs.hashLine = true
-				} else {
-					b.WriteString("a ## b")
-				}
-			case 4:
-				b.WriteString(r.Pick(c02Markers))
-			case 5:
-				if r.Chance(1, 6) {
-					b.WriteString("x\r\ny\r\n")
-					cs.hasCR = true
-				} else {
-					b.WriteString("x\ny\n")
-				}
-			case 6:
-				b.WriteString(string(r.Bytes(r.Range(1, 60), []byte("abc#0123456789\n<>/ "))))
-			default:
-				b.WriteString("<x>" + strconv.Itoa(r.Intn(1000)) + "</x>")
+	cs := c02dcase{seed: seed, v11: r.Chance(3, 5), nreq: r.Range(1, 4)}
+	cs.size = "small"
+	switch k := r.Intn(20); {
+	case k < 3:
+		cs.size = "medium"
+	case k < 4:
+		cs.size = "big"
+		cs.nreq = r.Range(1, 2)
+	}
+	switch cs.size {
+	case "small":
+		cs.segK = []int{0, 0, 1, 1, 2, 3, 16, 64, -1}[r.Intn(9)]
+	case "medium":
+		cs.segK = []int{0, 1, 16, 64, 1000, -1}[r.Intn(6)]
+	default:
+		cs.segK = []int{0, 4096, 65535, -1}[r.Intn(4)]
+	}
+	cs.echo = []int{sim.C08EchoOff, sim.C08EchoOff, sim.C08EchoOff, sim.C08EchoSep, sim.C08EchoMerged, sim.C08EchoCoalesced}[r.Intn(6)]
+	cs.trailingLF = !cs.v11 && r.Chance(1, 2)
+	cs.forceSC = r.Chance(1, 4)
+	cs.exclHdr = r.Chance(1, 4)
+	cs.badOpt = r.Chance(1, 8)
+	if cs.echo == sim.C08EchoOff && r.Chance(1, 3) {
+		cs.tail = []string{"late", "late", "trunc-silence", "trunc-eof", "trunc-err", "malformed", "malformed", "malformed", "malformed"}[r.Intn(9)]
+		if cs.tail == "malformed" {
+			if !cs.v11 {
+				cs.tail = "trunc-eof"
+			} else {
+				cs.tail = "malformed:" + r.Pick([]string{"oversize", "zero", "alpha", "negative", "undersize", "11-digits", "empty"})
 			}
 		}
-		b.WriteString("</rpc-reply>")
-		p := b.Bytes()
-		if bytes.Contains(p, []byte("</rpc>")) || bytes.Contains(p, []byte("]]>]]>")) {
-			p = []byte(head + "<ok/></rpc-reply>")
-			headLen = len(head)
+	}
+	for i := 0; i < cs.nreq; i++ {
+		id := 101 + i
+		last := i == cs.nreq-1
+		rq := c02dreq{op: r.Intn(c02opCount)}
+		if last && (cs.tail == "late" || cs.tail == "trunc-silence") {
+			rq.op = []int{c02opGetConfig, c02opGet, c02opRPC, c02opCommit}[r.Intn(4)]
 		}
-		if bytes.Contains(p[headLen:], []byte("\n##\n")) || bytes.Contains(p[headLen:], []byte("\n##")) && !cs.hashLine {
-			// random bytes produced a "##" line by accident: that is known finding F2's trigger
-			cs.hashLine = true
+		var headLen int
+		if rq.op == c02opEstablish && !(last && cs.tail != "") {
+			rq.subID = 7 + r.Intn(3)
+			rq.subOK = r.Chance(4, 5)
 		}
-		cs.payload = append(cs.payload, p)
-		// chunking: the first chunk carries the whole reply header (a message-id attribute cut by a
-		// chunk boundary is C08's known finding F13), the rest is cut arbitrarily
-		sizes := []int{headLen + r.Intn(len(p)-headLen+1)}
-		rest := len(p) - sizes[0]
-		sizes = append(sizes, r.Cuts(rest, r.Intn(4))...)
-		cs.chunks = append(cs.chunks, sizes)
+		if rq.subOK {
+			p := c02head(id) + `<subscription-result xmlns="` + c02subNS + `">notif-bis:ok</subscription-result>` +
+				`<subscription-id xmlns="` + c02subNS + `">` + strconv.Itoa(rq.subID) + `</subscription-id></rpc-reply>`
+			headLen = len(c02head(id))
+			if r.Chance(1, 4) {
+				p = c02xmlDecl + p
+				headLen += len(c02xmlDecl)
+			}
+			rq.payload = []byte(p)
+		} else {
+			rq.payload, headLen = c02dPayload(r, id, cs.v11, cs.size, last && cs.tail != "")
+		}
+		rq.chunks = c02dChunks(r, len(rq.payload), headLen, cs.size)
+		if last && strings.HasPrefix(cs.tail, "malformed") {
+			// the mutated header is the first one, and the byte behind an undersized first chunk is
+			// the reply header's '>' (neither LF nor '#': certainly a framing error)
+			rq.chunks = append([]int{headLen}, c02dChunks(r, len(rq.payload)-headLen, 0, cs.size)...)
+		}
+		if !(last && cs.tail != "") && r.Chance(1, 8) {
+			rq.notifID = 20 + i
+			rq.notif = []byte(`<notification xmlns="urn:ietf:params:xml:ns:netconf:notification:1.0"><eventTime>2026-01-01T00:00:0` + strconv.Itoa(i) +
+				`Z</eventTime><push-update xmlns="urn:ietf:params:xml:ns:yang:ietf-yang-push"><subscription-id>` + strconv.Itoa(rq.notifID) + `</subscription-id><v>é#` + strconv.Itoa(r.Intn(99)) + `</v></push-update></notification>`)
+		}
+		cs.reqs = append(cs.reqs, rq)
+	}
+	// the session read loop runs its delimiter pattern over everything buffered after every read:
+	// keep (number of reads) x (frame length) bounded so that a session stays in the millisecond
+	// range, by widening the reads of long frames
+	maxFrame := 0
+	for _, rq := range cs.reqs {
+		fl := len(rq.payload) + 8
+		if cs.v11 {
+			fl = len((&sim.NCServer{Version: "1.1"}).Frame(sim.NCReply{Payload: rq.payload, Chunks: rq.chunks}))
+		}
+		if fl > maxFrame {
+			maxFrame = fl
+		}
+	}
+	for cs.segK > 0 && (maxFrame/cs.segK)*maxFrame > 20_000_000 {
+		cs.segK *= 4
+	}
+	if cs.segK < 0 {
+		cs.segK = 0
+		hi := map[string]int{"small": 40, "medium": 3000, "big": 70000}[cs.size]
+		for k := r.Range(2, 40); k > 0; k-- {
+			cs.segList = append(cs.segList, r.Range(1, hi))
+		}
+	}
+	// operations timeout: generous, growing with the work (an echoing transport also returns the
+	// request, some hundred bytes) and with the scarcity of CPUs (declared slack: x2 below 8 CPUs,
+	// x4 below 4); only a reply that never completes waits for it
+	reads := 1
+	if cs.segK > 0 {
+		reads = (maxFrame+800)/cs.segK + 1
+	}
+	cs.timeout = 400*time.Millisecond + time.Duration(reads)*400*time.Microsecond + time.Duration(reads)*time.Duration(maxFrame)*60*time.Nanosecond +
+		time.Duration(maxFrame)*10*time.Microsecond
+	switch ncpu := runtime.NumCPU(); {
+	case ncpu < 4:
+		cs.timeout *= 4
+	case ncpu < 8:
+		cs.timeout *= 2
+	}
+	if cs.tail != "" {
+		fr := (&sim.NCServer{Version: map[bool]string{true: "1.1", false: "1.0"}[cs.v11], TrailingLF: cs.trailingLF}).Frame(sim.NCReply{Payload: cs.reqs[cs.nreq-1].payload, Chunks: cs.reqs[cs.nreq-1].chunks})
+		// everything but the end: "\n##\n" (1.1) / the last byte of "]]>]]>" (1.0) is certainly missing
+		hi := len(fr) - 4
+		if !cs.v11 {
+			hi = len(cs.reqs[cs.nreq-1].payload) + 5
+		}
+		cs.cut = r.Range(1, hi)
+		if r.Chance(1, 3) {
+			cs.cut = hi - r.Intn(3)
+		}
 	}
 	return cs
 }
 
 func c02expected(p []byte) (string, bool) {
-	t := bytes.TrimPrefix(p, []byte(`<?xml version="1.0" encoding="UTF-8"?>`))
+	t := bytes.TrimPrefix(p, []byte(c02xmlDecl))
 	t = bytes.TrimSpace(t)
 	failed := false
 	for _, m := range c02Markers {
@@ -107,9 +364,213 @@ func c02expected(p []byte) (string, bool) {
 	return string(t), failed
 }
 
+// c02malform rewrites the first chunk header of a legal 1.1 frame.
+func c02malform(fr []byte, class string) []byte {
+	i := bytes.IndexByte(fr, '#')
+	j := i + 1 + bytes.IndexByte(fr[i+1:], '\n')
+	hdr := string(fr[i+1 : j])
+	n, _ := strconv.Atoi(hdr)
+	nh := hdr
+	switch class {
+	case "oversize":
+		nh = strconv.Itoa(len(fr) + 5)
+	case "zero":
+		nh = "0"
+	case "alpha":
+		nh = hdr + "x"
+	case "negative":
+		nh = "-" + hdr
+	case "undersize":
+		nh = strconv.Itoa(n - 1)
+	case "11-digits":
+		nh = "1234567890" + hdr[:1]
+	case "empty":
+		nh = ""
+	}
+	return append(append(append([]byte{}, fr[:i+1]...), nh...), fr[j:]...)
+}
+
+var errC02BadOption = errors.New("c02: option refused")
+
+var (
+	c02subResultRe = regexp.MustCompile(`(?i)<subscription-result.*>notif-bis:(.+)</subscription-result>`)
+	c02subIDRe     = regexp.MustCompile(`(?i)<subscription-id.*>(\d+)</subscription-id>`)
+)
+
+type c02dout struct {
+	results  []string
+	failed   []bool
+	errs     []string
+	raws     [][]byte
+	subIDs   []int
+	panics   []string
+	notifs   [][][]byte // per request: GetSubscriptionMessages(notifID) right after the call
+	openErr  string
+	badOptOK string // "" or what went wrong with the refused call
+}
+
+func c02runSession(cs c02dcase) (o c02dout) {
+	var s *sim.NCServer
+	var cx *sim.C08Server
+	lateDone := make(chan struct{})
+	lateStarted := false
+	if cs.echo != sim.C08EchoOff {
+		// echoing transports (sim.C08Server): the echo of the rpc, the reply and the echo of the final
+		// return in separate reads, sharing reads, or handed over in ONE piece followed by silence
+		cx = sim.NewC08Server(cs.v11)
+		cx.Rogue = map[int][]byte{}
+		for k, rq := range cs.reqs {
+			cx.Plans = append(cx.Plans, sim.C08Plan{Payload: rq.payload, Chunks: rq.chunks})
+			if rq.notif != nil {
+				cx.Rogue[k] = rq.notif
+			}
+		}
+		s = cx.NCServer
+	} else {
+		s = sim.NewNCServer(true, cs.v11)
+		s.Behave = func(k int, req sim.NCRequest) sim.NCReply {
+			if k >= len(cs.reqs) {
+				return sim.NCReply{Never: true}
+			}
+			rq := cs.reqs[k]
+			if rq.notif != nil {
+				s.EmitBarrier()
+				s.Emit(s.Frame(sim.NCReply{Payload: rq.notif}))
+				s.EmitBarrier()
+			}
+			if k != len(cs.reqs)-1 || cs.tail == "" {
+				return sim.NCReply{Payload: rq.payload, Chunks: rq.chunks}
+			}
+			fr := s.Frame(sim.NCReply{Payload: rq.payload, Chunks: rq.chunks})
+			s.EmitBarrier()
+			switch {
+			case strings.HasPrefix(cs.tail, "malformed:"):
+				s.Emit(c02malform(fr, strings.TrimPrefix(cs.tail, "malformed:")))
+			case cs.tail == "late":
+				s.Emit(fr[:cs.cut])
+				lateStarted = true
+				go func() {
+					defer close(lateDone)
+					// well behind the driver-level timeout, well within the per-operation one
+					time.Sleep(cs.timeout + 200*time.Millisecond)
+					s.Mu.Lock()
+					s.Emit(fr[cs.cut:])
+					s.EmitBarrier()
+					s.Mu.Unlock()
+				}()
+			default:
+				s.Emit(fr[:cs.cut])
+				switch cs.tail {
+				case "trunc-eof":
+					s.EOFAt = s.Emitted
+				case "trunc-err":
+					s.ErrAt = s.Emitted
+				}
+			}
+			s.EmitBarrier()
+			return sim.NCReply{Never: true}
+		}
+	}
+	s.TrailingLF = cs.trailingLF
+	if cs.segList != nil {
+		s.Seg = sim.SegList(cs.segList)
+	} else if cs.segK > 0 {
+		s.Seg = sim.SegFixed(cs.segK)
+	}
+	s.Start()
+	dopts := []util.Option{options.WithCustomTransport(s), options.WithAuthBypass(),
+		options.WithTimeoutOps(cs.timeout), options.WithReadDelay(30 * time.Microsecond)}
+	if cs.forceSC {
+		dopts = append(dopts, options.WithNetconfForceSelfClosingTags())
+	}
+	if cs.exclHdr {
+		dopts = append(dopts, options.WithNetconfExcludeHeader())
+	}
+	d, err := netconf.NewDriver("h", dopts...)
+	if err != nil {
+		o.openErr = err.Error()
+		return o
+	}
+	if err := d.Open(); err != nil {
+		o.openErr = errClass(err)
+		return o
+	}
+	if cx != nil {
+		for w := 0; w < 2000 && !cx.Quiet(); w++ {
+			time.Sleep(100 * time.Microsecond)
+		}
+		cx.Mu.Lock()
+		cx.EchoMode = cs.echo
+		cx.Mu.Unlock()
+		cx.StartLog() // the echo starts with the first rpc (the hello exchange is not echoed)
+	}
+	if cs.badOpt {
+		// a call that fails in its options sends nothing and consumes no message id: the replies
+		// that follow must still reach their callers
+		r, err := d.RPC(opoptions.WithFilter("<x/>"), func(interface{}) error { return errC02BadOption })
+		if r != nil || !errors.Is(err, errC02BadOption) {
+			o.badOptOK = fmt.Sprintf("RPC with a refused option returned response=%v err=%v", r != nil, err)
+		}
+	}
+	for k, rq := range cs.reqs {
+		var oo []util.Option
+		last := k == len(cs.reqs)-1
+		switch {
+		case last && cs.tail == "late":
+			oo = append(oo, opoptions.WithTimeoutOps(cs.timeout+5*time.Second))
+		case last && cs.tail == "trunc-silence":
+			oo = append(oo, opoptions.WithTimeoutOps(80*time.Millisecond))
+		case c02opTakesOptions[rq.op] && cs.seed%5 == 0:
+			oo = append(oo, opoptions.WithTimeoutOps(cs.timeout+time.Second))
+		}
+		var r *response.NetconfResponse
+		var err error
+		pmsg := ""
+		func() {
+			defer func() {
+				if x := recover(); x != nil {
+					pmsg = fmt.Sprint(x)
+				}
+			}()
+			r, err = c02doOp(d, rq.op, oo...)
+		}()
+		o.panics = append(o.panics, pmsg)
+		if r != nil && err != nil && rq.op == c02opEstablish && r.Failed != nil {
+			err = nil // the method hands back the failed response together with its error
+		}
+		o.errs = append(o.errs, errClass(err))
+		if err != nil || r == nil {
+			o.results = append(o.results, "")
+			o.failed = append(o.failed, false)
+			o.raws = append(o.raws, nil)
+			o.subIDs = append(o.subIDs, 0)
+		} else {
+			o.results = append(o.results, r.Result)
+			o.failed = append(o.failed, r.Failed != nil)
+			o.raws = append(o.raws, r.RawResult)
+			o.subIDs = append(o.subIDs, r.SubscriptionID)
+		}
+		var nm [][]byte
+		if rq.notif != nil {
+			nm = d.GetSubscriptionMessages(rq.notifID)
+		}
+		o.notifs = append(o.notifs, nm)
+	}
+	if lateStarted {
+		<-lateDone
+	}
+	done := make(chan struct{})
+	go func() { defer func() { recover() }(); _ = d.Close(); close(done) }()
+	select {
+	case <-done:
+	case <-time.After(2 * time.Second):
+	}
+	return o
+}
+
 func runC02driver(c *ctx) {
 	res := c.res
-	n := c.n(250, 6000)
+	n := c.n(700, 8000)
 	cases := make([]c02dcase, n)
 	for i := range cases {
 		cases[i] = genC02d(c.rng.U64())
@@ -122,13 +583,7 @@ func runC02driver(c *ctx) {
 		seed, _ := strconv.ParseUint(f[1], 10, 64)
 		cases = []c02dcase{genC02d(seed)}
 	}
-	type out struct {
-		results []string
-		failed  []bool
-		errs    []string
-		openErr string
-	}
-	outs := make([]out, len(cases))
+	outs := make([]c02dout, len(cases))
 	var wg sync.WaitGroup
 	sem := make(chan struct{}, vlib.Conc(16))
 	for i := range cases {
@@ -137,69 +592,42 @@ func runC02driver(c *ctx) {
 		go func(i int) {
 			defer wg.Done()
 			defer func() { <-sem }()
-			cs := cases[i]
-			// every third case runs over a pty-style echoing transport that hands the echo of the
-			// rpc, the reply and the echo of the final return to the client in ONE piece and then
-			// stays silent (sim.C08Server, coalesced echo); the others over a non-echoing one
-			coalesced := cs.seed%3 == 0
-			var s *sim.NCServer
-			var cx *sim.C08Server
-			if coalesced {
-				cx = sim.NewC08Server(cs.v11)
-				for k := range cs.payload {
-					cx.Plans = append(cx.Plans, sim.C08Plan{Payload: cs.payload[k], Chunks: cs.chunks[k]})
-				}
-				s = cx.NCServer
-			} else {
-				s = sim.NewNCServer(true, cs.v11)
-				s.Behave = func(k int, req sim.NCRequest) sim.NCReply {
-					if k >= len(cs.payload) {
-						return sim.NCReply{Never: true}
-					}
-					return sim.NCReply{Payload: cs.payload[k], Chunks: cs.chunks[k]}
-				}
-			}
-			if cs.segK > 0 {
-				s.Seg = sim.SegFixed(cs.segK)
-			}
-			s.Start()
-			d, err := netconf.NewDriver("h", options.WithCustomTransport(s), options.WithAuthBypass(),
-				options.WithTimeoutOps(400*time.Millisecond), options.WithReadDelay(30*time.Microsecond))
-			if err != nil {
-				outs[i].openErr = err.Error()
-				return
-			}
-			if err := d.Open(); err != nil {
-				outs[i].openErr = errClass(err)
-				return
-			}
-			if coalesced {
-				for w := 0; w < 2000 && !cx.Quiet(); w++ {
-					time.Sleep(100 * time.Microsecond)
-				}
-				cx.EchoMode = sim.C08EchoCoalesced
-				cx.StartLog() // the echo starts with the first rpc (the hello exchange is not echoed)
-			}
-			for k := 0; k < cs.nreq; k++ {
-				r, err := d.GetConfig("running")
-				outs[i].errs = append(outs[i].errs, errClass(err))
-				if err != nil {
-					outs[i].results = append(outs[i].results, "")
-					outs[i].failed = append(outs[i].failed, false)
-					continue
-				}
-				outs[i].results = append(outs[i].results, r.Result)
-				outs[i].failed = append(outs[i].failed, r.Failed != nil)
-			}
-			done := make(chan struct{})
-			go func() { defer func() { recover() }(); _ = d.Close(); close(done) }()
-			select {
-			case <-done:
-			case <-time.After(2 * time.Second):
-			}
+			outs[i] = c02runSession(cases[i])
 		}(i)
 	}
 	wg.Wait()
+	// Record on the raw bytes the read loop handed over, against the model (the decoder on real
+	// read-loop output rather than on generated frames)
+	var lines []string
+	type rawRef struct{ i, k int }
+	var refs []rawRef
+	for i, cs := range cases {
+		for k := range outs[i].raws {
+			if raw := outs[i].raws[k]; raw != nil && len(raw) <= 20000 {
+				ver := "1.0"
+				if cs.v11 {
+					ver = "1.1"
+				}
+				lines = append(lines, "c02 raw "+ver+" "+vlib.Hex(raw))
+				refs = append(refs, rawRef{i, k})
+			}
+		}
+	}
+	mans := c.ask(lines)
+	for j, rf := range refs {
+		o := outs[rf.i]
+		f := strings.Fields(mans[j])
+		if len(f) != 3 {
+			res.Fail("machinery", lines[j], "driver answered "+mans[j], "driver")
+			continue
+		}
+		got := []byte(o.results[rf.k])
+		edgeOK := len(got) == 0 || (got[0] < 128 && got[len(got)-1] < 128)
+		if edgeOK && (b2s01(o.failed[rf.k]) != f[0] || vlib.Hex(got) != f[2]) {
+			res.Fail("correspondence", lines[j], fmt.Sprintf("session %d request %d: response failed=%v result=%q ; model on its RawResult %s", cases[rf.i].seed, rf.k, o.failed[rf.k], got, mans[j]), "impl-vs-model:driver-raw")
+		}
+	}
+	res.Count(fmt.Sprintf("driver:raw-results-vs-model:%d", len(refs)))
 	for i, cs := range cases {
 		o := outs[i]
 		caseLine := fmt.Sprintf("c02dcase %d", cs.seed)
@@ -208,31 +636,134 @@ func runC02driver(c *ctx) {
 			ver = "1.1"
 		}
 		res.Count("driver:version:" + ver)
-		res.Count(fmt.Sprintf("driver:seg:%d", cs.segK))
-		if cs.seed%3 == 0 {
-			res.Count("driver:transport:echo-coalesced-with-reply")
+		switch {
+		case cs.segList != nil:
+			res.Count("driver:seg:random-sizes")
+		default:
+			res.Count(fmt.Sprintf("driver:seg:%d", cs.segK))
+		}
+		res.Count("driver:echo:" + []string{"none", "separate-reads", "shares-reads-with-reply", "coalesced-with-reply"}[cs.echo])
+		res.Count("driver:size:" + cs.size)
+		if cs.tail != "" {
+			res.Count("driver:last-reply:" + cs.tail)
+		}
+		if cs.trailingLF {
+			res.Count("driver:1.0-server-sends-LF-behind-delimiter")
+		}
+		if cs.forceSC {
+			res.Count("driver:option:force-self-closing-tags")
+		}
+		if cs.exclHdr {
+			res.Count("driver:option:exclude-header")
+		}
+		if cs.badOpt {
+			res.Count("driver:history:refused-option-call-first")
 		}
 		res.Case("d"+caseLine, true)
 		if o.openErr != "" {
 			res.Fail("oracle", caseLine, "NETCONF open failed: "+o.openErr, "driver:open-error")
 			continue
 		}
-		for k := 0; k < cs.nreq; k++ {
-			want, wantFailed := c02expected(cs.payload[k])
-			cr := bytes.Contains(cs.payload[k], []byte("\r"))
+		if o.badOptOK != "" {
+			res.Fail("oracle", caseLine, o.badOptOK, "driver:refused-option-call")
+			continue
+		}
+		for k := 0; k < cs.nreq && k < len(o.errs); k++ {
+			rq := cs.reqs[k]
+			res.Count("driver:op:" + c02opNames[rq.op])
+			if rq.notif != nil {
+				res.Count("driver:notification-before-reply")
+			}
+			last := k == cs.nreq-1
+			desc := fmt.Sprintf("netconf %s %s request %d (seg %d%v, echo %d, chunks %v", ver, c02opNames[rq.op], k, cs.segK, cs.segList, cs.echo, rq.chunks)
+			if len(desc) > 300 {
+				desc = desc[:300] + "…"
+			}
+			desc += ")"
+			want, wantFailed := c02expected(rq.payload)
+			// a panic in the caller's goroutine
+			if o.panics[k] != "" {
+				sig := "driver:panic"
+				if rq.op == c02opEstablish {
+					fr := (&sim.NCServer{Version: ver}).Frame(sim.NCReply{Payload: rq.payload, Chunks: rq.chunks})
+					switch {
+					case !c02subResultRe.Match(rq.payload) || !c02subIDRe.Match(rq.payload):
+						// finding C02-F22(a): a reply without the result / id element
+						sig = "driver:subscription-reply-panic:no-result-element"
+					case !c02subResultRe.Match(fr) || !c02subIDRe.Match(fr):
+						// finding C02-F22(b): the element is there, a chunk header cuts it
+						sig = "driver:subscription-reply-panic:element-cut-by-chunk"
+					}
+				}
+				res.Fail("oracle", caseLine, fmt.Sprintf("%s: PANIC in the caller: %s ; reply %s", desc, o.panics[k], c02clipS(string(rq.payload), 300)), sig)
+				continue // the session goes on: the panic came after the reply had been consumed
+			}
+			if last && cs.tail != "" && cs.tail != "late" {
+				// the malformed / truncated clause through the whole stack: explicitly failed
+				if strings.HasPrefix(cs.tail, "malformed:") {
+					if o.errs[k] == "nil" && o.failed[k] && o.results[k] == "" {
+						continue
+					}
+					res.Fail("oracle", caseLine, fmt.Sprintf("%s: reply with a malformed chunk header (%s): err=%s failed=%v result %s ; expected a failed response without result",
+						desc, cs.tail, o.errs[k], o.failed[k], c02clipS(o.results[k], 300)), "driver:malformed-not-failed:"+strings.TrimPrefix(cs.tail, "malformed:"))
+					break
+				}
+				if o.errs[k] != "nil" && (cs.tail != "trunc-silence" || o.errs[k] == "timeout") {
+					continue
+				}
+				if o.errs[k] == "nil" && o.failed[k] && isSubseq([]byte(o.results[k]), rq.payload) {
+					continue // explicitly failed, and no byte the server did not send
+				}
+				res.Fail("oracle", caseLine, fmt.Sprintf("%s: reply cut after %d bytes then %s: err=%s failed=%v result %s ; expected an error",
+					desc, cs.cut, cs.tail, o.errs[k], o.failed[k], c02clipS(o.results[k], 300)), "driver:truncated-reply-accepted:"+cs.tail)
+				break
+			}
+			cr := bytes.Contains(rq.payload, []byte("\r"))
 			// F2: the session read loop finds message ends with the regex (?m)^##$ on the FRAMED
 			// bytes, so any line "##" before the real end-of-chunks marker (a payload line, or
 			// chunk data "##" directly after a chunk header) ends the message early once a read
 			// boundary lets the loop look at it
 			hl := false
 			if cs.v11 {
-				fr := (&sim.NCServer{Version: "1.1"}).Frame(sim.NCReply{Payload: cs.payload[k], Chunks: cs.chunks[k]})
+				fr := (&sim.NCServer{Version: "1.1"}).Frame(sim.NCReply{Payload: rq.payload, Chunks: rq.chunks})
 				body := fr[:len(fr)-3] // without the final "##\n"
 				// "\n##" followed by LF always ends the message early; followed by anything else it
 				// does so when a read boundary falls right after it ($ matches at end of buffer)
 				hl = bytes.Contains(body, []byte("\n##"))
 			}
-			if o.errs[k] == "nil" && o.results[k] == want && o.failed[k] == wantFailed {
+			if rq.op == c02opEstablish && !rq.subOK && !wantFailed && !cr && !hl {
+				// a healthy reply that lacks the subscription result / id elements: an explicit error
+				// (finding C02-F22(a) was an index panic here), never a success
+				if o.errs[k] == "netconf" {
+					continue
+				}
+				res.Fail("oracle", caseLine, fmt.Sprintf("%s: reply without subscription result: err=%s failed=%v result %s ; expected a NETCONF error",
+					desc, o.errs[k], o.failed[k], c02clipS(o.results[k], 300)), "driver:subscription-reply-without-result:"+o.errs[k])
+				break
+			}
+			ok := o.errs[k] == "nil" && o.results[k] == want && o.failed[k] == wantFailed
+			if ok && rq.subOK && o.subIDs[k] != rq.subID {
+				res.Fail("oracle", caseLine, fmt.Sprintf("%s: SubscriptionID %d, the reply says %d", desc, o.subIDs[k], rq.subID), "driver:wrong-subscription-id")
+				break
+			}
+			if ok && rq.notif != nil {
+				// the notification that preceded the reply is kept for its subscription, intact
+				wn, _ := c02expected(rq.notif)
+				good := len(o.notifs[k]) == 1
+				if good {
+					ir := implRecord(ver, o.notifs[k][0])
+					good = !ir.panicked && !ir.failed && string(ir.result) == wn
+				}
+				if !good {
+					sig := "driver:notification-lost-or-altered"
+					if cs.trailingLF || cs.echo != sim.C08EchoOff {
+						sig += ":" + fmt.Sprintf("echo%d-lf%v", cs.echo, cs.trailingLF)
+					}
+					res.Fail("oracle", caseLine, fmt.Sprintf("%s: notification for subscription %d sent before the reply: GetSubscriptionMessages = %q ; expected one message decoding to %q", desc, rq.notifID, o.notifs[k], wn), sig)
+					break
+				}
+			}
+			if ok {
 				continue
 			}
 			sig := "driver:wrong-result"
@@ -243,13 +774,34 @@ func runC02driver(c *ctx) {
 				sig = "driver:hash-hash-line-in-frame"
 			case o.errs[k] != "nil":
 				sig = "driver:error:" + o.errs[k]
+			case !cs.v11 && bytes.HasPrefix(rq.payload, []byte(c02xmlDecl)) && o.failed[k] == wantFailed &&
+				o.results[k] == c02xmlDecl+want && len(o.raws[k]) > 0 && bytes.IndexByte([]byte(" \t\r\n"), o.raws[k][0]) >= 0:
+				// finding C02-F21, and nothing else: the raw reply begins with white space (the LF the
+				// server sent behind the previous delimiter / the echoed return) and the result is the
+				// payload with exactly the declaration left in front
+				sig = "driver:decl-after-leading-space"
 			case o.results[k] == want:
 				sig = "driver:wrong-failed-flag"
 			}
-			res.Fail("oracle", caseLine, fmt.Sprintf("netconf %s request %d (seg %d, chunks %v): err=%s failed=%v result %q ; expected failed=%v %q",
-				ver, k, cs.segK, cs.chunks[k], o.errs[k], o.failed[k], o.results[k], wantFailed, want), sig)
+			res.Fail("oracle", caseLine, fmt.Sprintf("%s: err=%s failed=%v result %s ; expected failed=%v %s",
+				desc, o.errs[k], o.failed[k], c02clipS(o.results[k], 400), wantFailed, c02clipS(want, 400)), sig)
 			break
 		}
 	}
 	res.TracesVsImpl += len(cases)
 }
+
+func b2s01(b bool) string {
+	if b {
+		return "1"
+	}
+	return "0"
+}
+
+func c02clipS(s string, n int) string {
+	if len(s) > n {
+		return fmt.Sprintf("%q…(%d bytes)", s[:n], len(s))
+	}
+	return fmt.Sprintf("%q", s)
+}
+
